@@ -117,10 +117,10 @@ static inline uint16_t vf_spec_digits16(const char *b, size_t n) {
 	}
 	return (r);
 }
-/* strict reading: 1..5 decimal digits and nothing else, value <= max */
-static inline int vf_spec_strict_num(const char *b, size_t n, unsigned max) {
+/* strict reading: 1..maxdigits (<= 9) decimal digits and nothing else, value <= max */
+static inline int vf_spec_strict_num(const char *b, size_t n, size_t maxdigits, unsigned long max) {
 	unsigned long v = 0;
-	if (n == 0 || n > 5)
+	if (n == 0 || n > maxdigits)
 		return (0);
 	for (size_t i = 0; i < n; i ++) {
 		if (b[i] < '0' || b[i] > '9')
